@@ -13,6 +13,6 @@ if ! git -C $WT apply --3way "$D/patch.diff" >/tmp/try_seed.apply.$$ 2>&1; then 
 if ! (cd $WT && go build ./... >/tmp/try_seed.build.$$ 2>&1); then echo "NOBUILD $N"; exit 4; fi
 cd /verif
 OUT=/tmp/try_seed.$N.$P.out
-VERIF_REPO=$WT timeout 3000 bin/vcheck $P --tier $T > $OUT 2>&1
+VERIF_REPO=$WT VERIF_NO_EVIDENCE=1 timeout 3000 bin/vcheck $P --tier $T > $OUT 2>&1
 RC=$?
 if grep -q "^VIOLATION property=$P" $OUT; then echo "DETECTED $N by $P ($T): $(grep -A1 '^VIOLATION' $OUT | grep 'key=' | head -3 | tr '\n' ' ' | cut -c1-300)"; else echo "MISSED $N by $P ($T) rc=$RC: $(tail -1 $OUT | cut -c1-200)"; fi
